@@ -7,6 +7,8 @@ Space  : scope trees (vf/spaces/scopes.py): kinds {module, def, class, lambda, l
          Plus every CHAIN (one child per scope) of 4 (quick) / 4 and 5 (thorough) scopes over a reduced role
          catalogue (global/nonlocal/param/assign/read forms), which reaches three nested functions; and every FORK
          (module > function with a sibling def/class next to a chain of <= 2 scopes, both orders) over the same catalogue.
+         In chains and forks every function additionally owns an unrelated variable rebound by an inner function
+         ("ballast", keys c06:b:...), so that each function on the nesting path needs its own captured-variable storage.
 Oracle : CPython must compile and run the program without exception (else skipped, counted); then
          equal log (values observed before/after inner scopes run) and equal final globals.
 """
@@ -27,7 +29,7 @@ def run_shard(shard):
             if idx % k != r:
                 continue
             res.c["candidates"] += 1
-            progcheck.check_program(res, "c06:" + scopes.key(t), scopes.render(t), cfgs, env=scopes.env, envname="scopes")
+            progcheck.check_program(res, "c06:b:" + scopes.key(t), scopes.render(t, ballast=True), cfgs, env=scopes.env, envname="scopes")
         return res
     if shard[0] == "chain":
         _, n, r, k, cfgs = shard
@@ -36,7 +38,7 @@ def run_shard(shard):
             if idx % k != r:
                 continue
             res.c["candidates"] += 1
-            progcheck.check_program(res, "c06:" + scopes.key(t), scopes.render(t), cfgs, env=scopes.env, envname="scopes")
+            progcheck.check_program(res, "c06:b:" + scopes.key(t), scopes.render(t, ballast=True), cfgs, env=scopes.env, envname="scopes")
         return res
     n, si, r, k, cfgs = shard
     res = core.ShardResult()
